@@ -72,7 +72,16 @@ pub fn mix(v: i64, c: i64) -> i64 { (v * 7 + c).rem_euclid(1000003) }
 pub type R = Result<i64, i64>;
 #[derive(Clone, Copy)] pub enum Out { O(i64), E(i64), P }
 pub use Out::*;
-fn cb(id: u32) { if id != 0 { log(format!("cb:{}", id)); } }
+static SLOW: Mutex<Vec<u32>> = Mutex::new(Vec::new());
+/// callbacks that take their time (a sibling's failure must not let the caller go on before they are done)
+pub fn set_slow(ids: &[u32]) { *SLOW.lock().unwrap_or_else(|e| e.into_inner()) = ids.to_vec(); }
+fn cb(id: u32) {
+    if id != 0 {
+        let slow = SLOW.lock().unwrap_or_else(|e| e.into_inner()).contains(&id);
+        if slow { std::thread::sleep(std::time::Duration::from_millis(80)); }
+        log(format!("cb:{}", id));
+    }
+}
 pub fn cap(id: u32, vis: &[(&str, String)]) {
     log(format!("cap:{}:[{}]", id, vis.iter().map(|(n, v)| format!("{}={}", n, v)).collect::<Vec<_>>().join(",")));
 }
@@ -323,9 +332,10 @@ class Prog:
             run = "block_on(%s)" % inv
         else:
             run = inv
-        return ("fn %s() -> String {\n    let r = std::panic::catch_unwind(|| { let __res = %s; __res.show() });\n"
+        slow = "set_slow(&[%s]); " % ", ".join(str(i + self.base) for i in getattr(self, "slow", []))
+        return ("fn %s() -> String {\n    %slet r = std::panic::catch_unwind(|| { let __res = %s; __res.show() });\n"
                 "    match r { Ok(s) => format!(\"ok {}\", s), Err(e) => format!(\"panic {}\", panic_text(e)) }\n}\n"
-                % (self.pid, run))
+                % (self.pid, slow, run))
 
 
 # ------------------------------------------------------------------------------------------------
@@ -665,6 +675,7 @@ def report(ctx, results, signature_fn=None):
                 "caller_thread": ("a thread without a name" if p.pid.endswith("_u") else
                                   "a thread named `main`, then the same call site again from a thread named `w2`" if p.pid.endswith("_2")
                                   else "a thread named `main`"),
+                "slow_callbacks": [i + p.base for i in getattr(p, "slow", [])],
                 "how_to_replay": "./check %s --replay <this file>  (compiles the program against /repo and re-compares)" % ctx.pid,
             }, found_input=True, signature=sig)
     return n_impl
@@ -688,8 +699,10 @@ def replay(obj):
     second = "second execution" in " ".join(obj.get("problems", []))
     unnamed = "without a name" in obj.get("caller_thread", "")
     pid = "p0" + ("_2" if second else "_u" if unnamed else "")
-    fn = ("fn %s() -> String {\n    let r = std::panic::catch_unwind(|| { let __res = %s; __res.show() });\n"
-          "    match r { Ok(s) => format!(\"ok {}\", s), Err(e) => format!(\"panic {}\", panic_text(e)) }\n}\n" % (pid, prog))
+    slow = obj.get("slow_callbacks", [])
+    fn = ("fn %s() -> String {\n    set_slow(&[%s]); let r = std::panic::catch_unwind(|| { let __res = %s; __res.show() });\n"
+          "    match r { Ok(s) => format!(\"ok {}\", s), Err(e) => format!(\"panic {}\", panic_text(e)) }\n}\n"
+          % (pid, ", ".join(str(i) for i in slow), prog))
     src = PRELUDE_SYNC + fn + MAIN_SYNC % ('("%s", %s as fn() -> String)' % (pid, pid))
     ok, out, log = build_and_run("k2replay", src)
     if not ok:
@@ -699,6 +712,9 @@ def replay(obj):
     now = lines.get(pid + "#2" if second else pid, "MISSING")
     print(json.dumps({"compiles_now": True, "observed_now": now[:1500], "observed_then": obj.get("observed", "")[:1500],
                       "reference_semantics": obj.get("reference_semantics", "")[:1500]}, indent=1))
+    # a slow callback of a sibling thread must have run to its end before the caller went on
+    if any(("cb:%d@" % i) not in now for i in slow):
+        return 1
     ref = obj.get("reference_semantics", "").split("\t")[0]
     res_now = normalize_panic(now.split("\t")[0], 0) if now.startswith("panic") else now.split("\t")[0]
     return 1 if ref and lean_flat(ref + "\t", Prog("x", kind, "join"))[0] != res_now else 0
@@ -780,7 +796,7 @@ def run_nested_names(ctx):
 
 
 def gen_scaffold(rng, pid, kind, name=None, max_branches=4, max_depth=4, fail_rate=(1, 6), panic_rate=(0, 1),
-                 block_rate=(1, 4), name_rate=(1, 3), handler_rate=(1, 2), profile=None, wrap_rate=(0, 1)):
+                 block_rate=(1, 4), name_rate=(1, 3), handler_rate=(1, 2), profile=None, wrap_rate=(0, 1), step_len=None):
     p = Prog(pid, kind, name or rng.pick(NAMES[kind]))
     ids = Ids()
     nb = len(profile) if profile else 1 + rng.below(max_branches)
@@ -798,6 +814,9 @@ def gen_scaffold(rng, pid, kind, name=None, max_branches=4, max_depth=4, fail_ra
         ops = []
         for k in range(depth):
             n_ops = 1 + (rng.below(3) if rng.chance(1, 2) else 0)
+            if step_len:
+                # long steps: behaviour that depends on the position of an action in its step (two-digit positions)
+                n_ops = step_len[0] + rng.below(step_len[1] - step_len[0] + 1)
             for j in range(n_ops):
                 first = j == 0
                 if k == 0 and first:
@@ -825,6 +844,29 @@ def gen_scaffold(rng, pid, kind, name=None, max_branches=4, max_depth=4, fail_ra
                 ops.append(op)
         nm = ("n%d" % b) if rng.chance(*name_rate) else None
         p.branches.append(dict(name=nm, mut=rng.chance(1, 4), ops=ops))
+    # thread-spawning kinds: in half of the programs in which a chain fails, a callback of a *later* branch in the failing step
+    # takes its time: the caller may go on only after every thread of the step has finished, whatever its siblings returned
+    if kind[1] == "0" and kind[5] == "1" and not panic_rate[0]:
+        fails = []
+        for b, br in enumerate(p.branches):
+            k = 0
+            for op in br["ops"]:
+                if op.deferred:
+                    k += 1
+                if op.out[0] == "fail" and op.mode in ("init", "andThen", "then", "orElse", "or", "filter"):
+                    fails.append((b, k))
+        if fails and rng.chance(1, 2):
+            fb, fk = rng.pick(fails)
+            cands = []
+            for b, br in enumerate(p.branches):
+                k = 0
+                for op in br["ops"]:
+                    if op.deferred:
+                        k += 1
+                    if b > fb and k == fk and op.cb:
+                        cands.append(op.cb)
+            if cands:
+                p.slow = [rng.pick(cands)]
     if rng.chance(*handler_rate):
         hk = rng.pick(["map", "and_then"]) if is_try else "then"
         hid = ids.next()
@@ -832,6 +874,37 @@ def gen_scaffold(rng, pid, kind, name=None, max_branches=4, max_depth=4, fail_ra
         if out[0] == "panic":
             out = ("panic", hid)
         p.handler = dict(kind=hk, id=hid, out=out, block=rng.chance(1, 2), pos=rng.below(nb + 1))
+    return p
+
+
+def gen_late_failure(rng, pid, kind, profile):
+    """A program in which a branch fails in the *last* step while a later sibling of that step is still busy (a slow callback):
+    the caller may only go on - with that failure, for the try macros - once the sibling's thread has finished."""
+    p = gen_scaffold(rng, pid, kind, profile=profile, fail_rate=(0, 1), panic_rate=(0, 1), handler_rate=(1, 3), block_rate=(1, 6))
+    last = max(profile) - 1
+    act = [b for b, d in enumerate(profile) if d - 1 == last]
+    if len(act) < 2:
+        return p
+    i = act[rng.below(len(act) - 1)]
+    j = rng.pick([b for b in act if b > i])
+
+    def ops_of_step(br, k):
+        kk, out = 0, []
+        for op in br["ops"]:
+            if op.deferred:
+                kk += 1
+            if kk == k:
+                out.append(op)
+        return out
+    oi = ops_of_step(p.branches[i], last)[-1]
+    if oi.mode not in ("init", "andThen", "then", "orElse", "or", "filter"):
+        oi.mode = "andThen"
+    if oi.cb == 0:
+        return p
+    oi.out = ("fail", 1 + rng.below(90))
+    cands = [op.cb for op in ops_of_step(p.branches[j], last) if op.cb]
+    if cands:
+        p.slow = [cands[0]]
     return p
 
 
@@ -1257,8 +1330,53 @@ FOLD_BLOCK_CHAINS = [
 ]
 
 
+class CounterChainProg(FixedChainProg):
+    """A wrapper chain whose nested user closure counts its calls in a `Copy` local of the caller (`calls += 1`): the wrapper's
+    closure must borrow what the nested closures mention, exactly as the documented `.x(|v| v inner…)` does - the count is
+    compared together with the value."""
+
+    def rust_fn(self):
+        return ("fn %s() -> String {\n    take_log();\n"
+                "    let a = { let mut calls = 0i64; let __r: %s = %s! { %s }; (__r, calls).show() }; let ta = take_log();\n"
+                "    let b = { let mut calls = 0i64; let __r: %s = %s; (__r, calls).show() }; let tb = take_log();\n"
+                "    if a == b && strip(&ta) == strip(&tb) { format!(\"same {}\", a) } else { format!(\"DIFF macro={} [{}] plain={} [{}]\", a, strip(&ta), b, strip(&tb)) }\n}\n"
+                % (self.pid, self._ty, self.name, self._macro, self._ty, self._plain))
+
+
+_CB = "{ let k = 1i64; move |v: i64| v + k }"          # a block operand: hoisted in front of the step
+_IT = "vec![1i64, 2, 3].into_iter()"
+# (macro input, documented plain chain with the block bound first, type): one per wrapper-capable operator whose closure may be FnMut
+COUNTER_CHAINS = [
+    ("Some(5i64) |> %s |> >>> -> |v: i64| { calls += 1; v * 2 }" % _CB,
+     "{ let __b = %s; Some(5i64).map(__b).map(|__v| (|v: i64| { calls += 1; v * 2 })(__v)) }" % _CB, "Option<i64>"),
+    ("Some(5i64) |> %s => >>> -> |v: i64| { calls += 1; Some(v) }" % _CB,
+     "{ let __b = %s; Some(5i64).map(__b).and_then(|__v| (|v: i64| { calls += 1; Some(v) })(__v)) }" % _CB, "Option<i64>"),
+    ("Some(5i64) |> %s ?> >>> -> |r: &i64| { calls += 1; *r > 0 }" % _CB,
+     "{ let __b = %s; Some(5i64).map(__b).filter(|__v| (|r: &i64| { calls += 1; *r > 0 })(__v)) }" % _CB, "Option<i64>"),
+    ("%s |> %s ?|> >>> -> |v: i64| { calls += 1; if v > 2 { Some(v) } else { None } } <<< =>[] Vec<i64>" % (_IT, _CB),
+     "{ let __b = %s; %s.map(__b).filter_map(|__v| (|v: i64| { calls += 1; if v > 2 { Some(v) } else { None } })(__v)).collect::<Vec<i64>>() }" % (_CB, _IT), "Vec<i64>"),
+    ("%s |> %s ?@ >>> -> |v: &i64| { calls += 1; *v > 2 }" % (_IT, _CB),
+     "{ let __b = %s; %s.map(__b).find(|__v| (|v: &i64| { calls += 1; *v > 2 })(__v)) }" % (_CB, _IT), "Option<i64>"),
+    ("%s |> %s ?|>@ >>> -> |v: i64| { calls += 1; if v > 2 { Some(v) } else { None } }" % (_IT, _CB),
+     "{ let __b = %s; %s.map(__b).find_map(|__v| (|v: i64| { calls += 1; if v > 2 { Some(v) } else { None } })(__v)) }" % (_CB, _IT), "Option<i64>"),
+    ("%s |> %s ?&!> >>> -> |v: &i64| { calls += 1; *v > 2 }" % (_IT, _CB),
+     "{ let __b = %s; %s.map(__b).partition(|__v| (|v: &i64| { calls += 1; *v > 2 })(__v)) }" % (_CB, _IT), "(Vec<i64>, Vec<i64>)"),
+    ("Err::<i64, i64>(3) |> %s <= >>> -> |e: i64| { calls += 1; Ok::<i64, i64>(e) }" % _CB,
+     "{ let __b = %s; Err::<i64, i64>(3).map(__b).or_else(|__v| (|e: i64| { calls += 1; Ok::<i64, i64>(e) })(__v)) }" % _CB, "Result<i64, i64>"),
+    ("Err::<i64, i64>(3) |> %s !> >>> -> |e: i64| { calls += 1; e + 1 }" % _CB,
+     "{ let __b = %s; Err::<i64, i64>(3).map(__b).map_err(|__v| (|e: i64| { calls += 1; e + 1 })(__v)) }" % _CB, "Result<i64, i64>"),
+    # two wrappers deep, the block inside the outer one
+    ("Some(Some(5i64)) |> >>> |> %s ?> >>> -> |r: &i64| { calls += 1; *r > 0 }" % _CB,
+     "{ let __b = %s; Some(Some(5i64)).map(|__v| __v.map(__b).filter(|__v| (|r: &i64| { calls += 1; *r > 0 })(__v))) }" % _CB, "Option<Option<i64>>"),
+]
+
+
 def regression_chain_programs():
     out = []
+    for i, (m, pl, ty) in enumerate(COUNTER_CHAINS):
+        for name in ("join", "try_join" if ty.startswith(("Option<i64", "Result")) else "join"):
+            if not any(o.pid == "cc%d_%s" % (i, name) for o in out):
+                out.append(CounterChainProg("cc%d_%s" % (i, name), name, m, pl, ty))
     for i, (m, pl, ty) in enumerate(REGRESSION_CHAINS):
         for name in ("join", "join_spawn", "spawn"):
             out.append(FixedChainProg("r%d_%s" % (i, name), name, m, pl, ty))
